@@ -202,7 +202,19 @@ class FileProxy:
     def close(self):
         if self._f.closed:
             return self._f.close()
-        ev = _emit('f.close.w' if self._w else 'f.close.r', self._rel, fobj=self._f)
+        try:
+            ev = _emit('f.close.w' if self._w else 'f.close.r', self._rel, fobj=self._f)
+        except OSError:
+            # injected fault: the implicit flush of close() fails - buffered bytes never reach the file, the descriptor is
+            # released all the same (this is what a failing write-back at close looks like)
+            raw = getattr(self._f, 'raw', None)
+            try:
+                if raw is not None:
+                    raw.close()
+                self._f.close()
+            except (OSError, ValueError):
+                pass
+            raise
         r = self._f.close()
         _after(ev, r)
         return r
